@@ -1029,6 +1029,24 @@ def _dedup(violations: list[dict], per_key: int = 3) -> list[dict]:
 
 
 # =============================================================================== mode "proto"
+def _seq_hash_task_class(salt: int):
+    """asyncio.Task whose hash is its creation number in this run instead of its address."""
+    counter = [0]
+
+    class SeqHashTask(asyncio.Task):
+        __slots__ = ("_sim_hash",)
+
+        def __hash__(self):
+            try:
+                return self._sim_hash
+            except AttributeError:  # first use: registration in asyncio's task set, inside the constructor
+                counter[0] += 1
+                self._sim_hash = (counter[0] * 7919 + salt * 104729) % 1000003 if salt else counter[0]
+                return self._sim_hash
+
+    return SeqHashTask
+
+
 class JupyterWorld(World):
     """World + the TCP seam (asyncio.start_server) + deterministic uuid/datetime inside jupyter_kernel."""
 
@@ -1037,6 +1055,20 @@ class JupyterWorld(World):
         self.spec = spec
         self.net: N.SimNet | None = None
         self._uuid_n = 0
+        # With two shell connections the kernel keeps two listener tasks in one set (Kernel.tasks["shell"]) and
+        # cancels them in set order when the session ends: like World._hash_seams does for the other
+        # address-hashed objects, tasks then get a per-run sequence number as hash (permuted by set_order_salt).
+        self._task_cls = _seq_hash_task_class(int(cfg.get("set_order_salt", 0))) if spec.get("fe2") else None
+
+    def _task_factory(self, loop, coro, **kwargs):
+        if self._task_cls is None:
+            return super()._task_factory(loop, coro, **kwargs)
+        task = self._task_cls(coro, loop=loop, **kwargs)  # otherwise the same as World._task_factory
+        self._seq += 1
+        self.tasks.append(task)
+        self.task_label[id(task)] = len(self.tasks)
+        task.set_name(f"sim-{len(self.tasks)}")
+        return task
 
     def extra_patches(self) -> list:
         import custom_components.pyscript.jupyter_kernel as jk
